@@ -44,7 +44,7 @@ SYMS_T = SYMS_B + ['é', 'É']
 
 
 def shards(tier):
-    n = 1500 if tier == 'quick' else 60000
+    n = 3000 if tier == 'quick' else 60000
     return [{'n': n} for _ in range(16)]
 
 
